@@ -22,7 +22,7 @@ REPO = os.environ.get('VERIF_REPO', '/repo')
 class FunctionContract:
     def __init__(self, file, qualname, prop, setup=None, requires=(), ensures=(), raises=None, loops=None,
                  modifies=(), result_ty=None, spec_env=None, locals=None, axioms=None, note='', short=None,
-                 inline_loops=None, canary=None, params=None, allow_exc=(), region=None, spec_defs=None, spec_recs=(), ghost_at=None, lemmas=(), modular=True, methods=None, attr_hooks=None, filters=None):
+                 inline_loops=None, canary=None, params=None, allow_exc=(), region=None, spec_defs=None, spec_recs=(), ghost_at=None, lemmas=(), modular=True, methods=None, attr_hooks=None, filters=None, attr_types=None):
         self.file, self.qualname, self.prop = file, qualname, prop
         self.setup = setup
         self.requires, self.ensures = list(requires), list(ensures)
@@ -47,6 +47,7 @@ class FunctionContract:
         self.attr_hooks = attr_hooks or {}
         self.filters = filters or {}
         self.modular = modular     # False: callers inline the body instead of using this contract
+        self.attr_types = attr_types or {}      # 'obj.attr' -> declared (Optional) type: postconditions see one value of that type
 
     @property
     def name(self):
@@ -183,6 +184,23 @@ def _module_defines(menv, name):
         if isinstance(st, ast.Assign) and any(isinstance(t, ast.Name) and t.id == name for t in st.targets):
             return True
     return False
+
+
+def _normalise_attrs(contract, env):
+    """attributes the contract declares an Optional type for: None / a bare value become one value of that type"""
+    for path, ty in contract.attr_types.items():
+        base, attr = path.split('.')
+        try:
+            o = env.lookup(base)
+        except KeyError:
+            continue
+        if not isinstance(o, Obj) or attr not in o.attrs or not isinstance(ty, TOpt):
+            continue
+        v = o.attrs[attr]
+        if v is None:
+            o.attrs[attr] = SV(ty, ty.none())
+        elif not (isinstance(v, SV) and isinstance(v.ty, TOpt)):
+            o.attrs[attr] = SV(ty, ty.some(to_z3(v, ty.t)))
 
 
 def select_region(body, region):
@@ -432,6 +450,7 @@ def verify(contract, all_contracts=(), timeout_ms=10000, mutate=None, negate_pos
                 if gen:
                     result = env.vars['__yielded__']
             except PyExc as ex:
+                _normalise_attrs(contract, env)
                 conds = None
                 for k, v in contract.raises.items():
                     from .interp import exc_isinstance
@@ -447,6 +466,7 @@ def verify(contract, all_contracts=(), timeout_ms=10000, mutate=None, negate_pos
                     eng.oblige(eng._b(eng.spec_truth(c, env)), 'raises:%s:%d' % (name, k), ex.line)
                 return
             res.reached_post += 1
+            _normalise_attrs(contract, env)
             if contract.result_ty is not None and isinstance(result, Box) and result.ty is None and result.cd is None:
                 # an empty literal returned where the contract declares the type (inside an Optional: the payload type)
                 rt = contract.result_ty
